@@ -507,6 +507,15 @@ func runC16(c *Ctx) error {
 		return c16Replay(c, sides, "replay", ops)
 	}
 
+	// corpus first: the witnesses of repaired defects run as ordinary cases (a regression is a VIOLATION)
+	for _, cs := range loadCorpus("C16") {
+		if err := c16Replay(c, sides, cs.name, cs.ops); err != nil {
+			return err
+		}
+		c.R.Count("corpus cases replayed", 1)
+	}
+	c.R.ModelOps = 0
+
 	type store struct {
 		name string
 		ops  []string
